@@ -41,14 +41,27 @@ def impl_escape(x):
         return "EXC:" + type(e).__name__
 
 
+class _View(__import__("html.parser").parser.HTMLParser):
+    def __init__(self):
+        super().__init__(convert_charrefs=True)
+        self.text, self.tags, self.depth = [], 0, 0
+
+    def handle_starttag(self, tag, attrs):
+        if tag == "td" and self.depth == 0:
+            self.depth = 1
+        else:
+            self.tags += 1
+
+    def handle_data(self, data):
+        self.text.append(data)
+
+
 def html_view(x):
-    """what an HTML parser makes of the fragment x placed in element content: (text, number of tags)"""
-    from bs4 import BeautifulSoup
-    soup = BeautifulSoup("<td>" + x + "</td>", "html.parser")
-    td = soup.find("td")
-    if td is None:
-        return "", -1
-    return td.get_text(), len(td.find_all(True))
+    """what Python's HTML parser makes of the fragment x placed in element content: (text, number of start tags)"""
+    v = _View()
+    v.feed("<td>" + x + "</td>")
+    v.close()
+    return "".join(v.text), v.tags
 
 
 # ----------------------------------------------------------------------------- text normalisation
@@ -169,16 +182,16 @@ def check_pages(doc, p, control_doc=None):
                     ntags = len([t for t in cell.find_all(True) if t.name not in ("strong", "span", "a")])
                     if markup(want):
                         exposed[SITE_OF_COLUMN[col]] += 1
-                        if squash(got) != squash(want) or ntags:
+                        if ntags:
                             created[SITE_OF_COLUMN[col]] += 1
                     if squash(got) != squash(want) or ntags:
                         problems.append(dict(page=rel, what="cell-text", site=SITE_OF_COLUMN[col], column=col,
                                              name=name, form=d.get("form"), expected=want, got=got,
                                              extra_tags=ntags))
-        # namelist pages: Variable | Type | Initial | Description
+        # namelist pages: Name | Type | Default | Description
         for table in soup.select("table"):
             heads = [browser_text(th) for th in table.select("thead th")]
-            if heads[:3] != ["Variable", "Type", "Initial"]:
+            if heads[:3] != ["Name", "Type", "Default"]:
                 continue
             for tr in table.select("tbody > tr"):
                 tds = tr.find_all("td", recursive=False)
@@ -192,10 +205,12 @@ def check_pages(doc, p, control_doc=None):
                 for col, idx, site in (("Type", 1, "macros.html:variable.full_type | relurl(page_url)#1"),
                                        ("Initial", 2, "macros.html:variable.initial | e#1")):
                     got = browser_text(tds[idx])
+                    if col == "Initial" and got == "None" and not exp[col]:
+                        got = ""
                     stats["cells"] += 1
                     if markup(exp[col]):
                         exposed[site] += 1
-                        if squash(got) != squash(exp[col]) or tds[idx].find_all(True):
+                        if [x for x in tds[idx].find_all(True) if x.name not in ("a", "span")]:
                             created[site] += 1
                     if squash(got) != squash(exp[col]) or tds[idx].find_all(True):
                         problems.append(dict(page=rel, what="cell-text", site=site, column="namelist-" + col, name=name,
@@ -213,7 +228,7 @@ def check_pages(doc, p, control_doc=None):
                     ntags = len([x for x in h.find_all(True) if x.name not in ("a", "small", "span", "button")])
                     if markup(want):
                         exposed["macros.html:proc.bindC#1"] += 1
-                        if squash(want) not in squash(t) or ntags:
+                        if ntags:
                             created["macros.html:proc.bindC#1"] += 1
                     if squash(want) not in squash(t) or ntags:
                         problems.append(dict(page=rel, what="heading-text", site="macros.html:proc.bindC#1",
@@ -248,7 +263,8 @@ def check_pages(doc, p, control_doc=None):
                                      got=body, extra_tags=len(h.find_all(True))))
                 if markup(cands):
                     exposed[site] += 1
-                    created[site] += 1
+                    if [x for x in h.find_all(True) if x.name not in ("a", "small", "span")]:
+                        created[site] += 1
     for name, d in vars_.items():
         if not seen[name] and d in p["mod_vars"] + p["tvars"]:
             problems.append(dict(page="module/m.html", what="declaration-not-displayed", site=None, name=name,
